@@ -1,6 +1,7 @@
 package main
 
 import (
+	"fmt"
 	"os"
 	"path/filepath"
 )
@@ -86,6 +87,20 @@ func junkFiles(r *rng) []seedFile {
 	// a JPEG whose SOF is too short (recovered panic), then valid WebP bytes
 	out = append(out, seedFile{"jpeg-short-sof", "none", []byte{0xff, 0xd8, 0xff, 0xc0, 0x00, 0x04, 0x08, 0x00}, 0})
 	out = append(out, seedFile{"png-truncated-ihdr", "none", png[:20], 0})
+	// a JPEG whose first SOF is fine and whose second SOF is too short: the extractor panics (and
+	// recovers) *after* the basic metadata was extracted, so it returns metadata together with an error
+	goodSOF := []byte{0xff, 0xc0, 0x00, 0x0b, 0x08, 0x00, 0x10, 0x00, 0x0f, 0x01, 0x01, 0x11, 0x00}
+	for _, l := range []byte{2, 3, 6} {
+		for _, m := range []byte{0xc0, 0xc2} {
+			d := append([]byte{0xff, 0xd8}, goodSOF...)
+			d = append(d, 0xff, m, 0x00, l)
+			d = append(d, make([]byte, int(l)-2)...)
+			d = append(d, 0xff, 0xda, 0x00, 0x02)
+			out = append(out, seedFile{fmt.Sprintf("jpeg-second-sof-short-%d-%x", l, m), "none", d, 0})
+		}
+	}
+	// the same after a complete ICC profile chunk
+	out = append(out, seedFile{"jpeg-icc-then-short-sof", "none", append(append(append([]byte{0xff, 0xd8}, iccApp2(1, 1, []byte("profile")).bytes()...), 0xff, 0xc0, 0x00, 0x04, 0x08, 0x00), 0xff, 0xd9), 0})
 	return out
 }
 
